@@ -971,6 +971,8 @@ class PeptideVariantGraph():
                 for variant in target_node.variants:
                     if variant.variant.is_frameshifting():
                         cur_start_gain.add(variant.variant)
+                    elif variant.is_stop_altering and variant.not_cleavage_altering():
+                        cur_start_gain.add(variant.variant)
 
                 upstream_indels = target_node.upstream_indel_map.get(cursor.in_node)
                 if upstream_indels:
